@@ -131,3 +131,16 @@ uint16_t gsm_freq102arfcn(uint16_t freq10, int uplink)
 			return a | ARFCN_PCS;
 	return 0xffff;
 }
+
+
+/* ---- logging: format and discard ---- */
+unsigned long shim_log_calls;
+void shim_log(const char *fmt, ...)
+{
+	static char scratch[8192];
+	va_list ap;
+	va_start(ap, fmt);
+	vsnprintf(scratch, sizeof(scratch), fmt, ap);
+	va_end(ap);
+	shim_log_calls++;
+}
